@@ -128,7 +128,8 @@ class Ctx:
         self.probes[name] += n
 
     def violate(self, prop: str, clause: str, msg: str, key: str = "", abort: bool = False):
-        if len(self.violations) < 20:
+        # capped per property: monitors of OTHER properties (an mc run carries four) must not crowd out the focus
+        if sum(1 for v in self.violations if v["property"] == prop) < 20:
             self.violations.append({"property": prop, "clause": clause, "msg": str(msg)[:600],
                                     "op": self.op_index, "key": key})
         self.ev("violation", prop, clause)
